@@ -22,6 +22,54 @@ Theorem C15_index_belongs_to_sessions : forall (k : caps) (ops : list op),
   ixinv (fold_left (fun s o => fst (step k s o)) ops init).
 Proof. exact index_belongs_to_sessions. Qed.
 
+(* the state after a history of operations *)
+Definition after (k : caps) (ops : list op) : state := fold_left (fun s o => fst (step k s o)) ops init.
+
+(* WHEN a session is discarded.  In every state reachable by any history, an operation removes the
+   session of an identifier from Clients only
+   - if it is the housekeeping tick, the session is disconnected, and more than its expiry interval
+     has elapsed since the disconnect stamp ([interval]: the session's own interval for MQTT 5 with
+     the property, the server maximum otherwise), or
+   - if it is the end of that session's own connection and the session ends with the connection
+     ([expire_cond]: MQTT 5 with interval 0, MQTT 3 with clean session);
+   a takeover (OConnect), the teardown of a taken-over connection and all other operations never
+   remove one.  Together with C15_interval_capped (the stored interval is the client's, capped by the
+   server maximum, at CONNECT and at DISCONNECT) this is the first sentence of the property.
+   Stated on the model's own state rather than through the monitor [mon15] (whose clauses V15_when /
+   V15_late are checked on every run against the real broker). *)
+Theorem C15_when : forall (k : caps) (ops : list op) (o : op) (id : bytes),
+  removed (after k ops) (fst (step k (after k ops) o)) id ->
+  match o with
+  | OTickClients now =>
+      exists c ob, aget id (st_clients (after k ops)) = Some c /\ get_obj c (st_objs (after k ops)) = Some ob /\
+                   o_open ob = false /\ (o_disc ob + Z.of_N (interval k ob) < now)%Z
+  | ODisconnect c _ _ _ | ONetClose c _ | OSecondConnect c _ | OTeardown c _ =>
+      aget id (st_clients (after k ops)) = Some c /\
+      exists ob', get_obj c (st_objs (fst (step k (after k ops) o))) = Some ob' /\ o_id ob' = id /\ expire_cond ob' = true
+  | _ => False
+  end.
+Proof. intros k ops o id. apply discard_only_when_due. apply inv_reachable. Qed.
+
+(* a connected session is never discarded: an open connection's object is always the one registered under its identifier *)
+Theorem C15_never_while_connected : forall (k : caps) (ops : list op) (c : N) (ob : cobj),
+  get_obj c (st_objs (after k ops)) = Some ob -> o_open ob = true ->
+  aget (o_id ob) (st_clients (after k ops)) = Some c.
+Proof. intros k ops c ob G O. destruct (inv_reachable k ops) as [W _]. destruct (wf_open _ W c ob G O) as [A _]. exact A. Qed.
+
+(* the interval the broker keeps for a session never exceeds the server maximum *)
+Theorem C15_interval_capped : forall (k : caps) (ops : list op) (c : N) (ob : cobj),
+  get_obj c (st_objs (after k ops)) = Some ob -> o_sei ob <= k_maxsei k.
+Proof. intros k ops. apply interval_capped. Qed.
+
+(* a DISCONNECT cannot raise a zero session expiry interval: protocol error (DISCONNECT 0x82 is sent),
+   the interval stays zero and the session is gone after the step *)
+Theorem C15_disconnect_cannot_raise : forall (k : caps) (ops : list op) (c : N) (now : Z) (rc v : N) (ob : cobj),
+  reading (after k ops) c = Some ob -> o_ver ob = 5 -> o_sei ob = 0 -> 0 < v ->
+  aget (o_id ob) (st_clients (fst (do_disconnect k c now rc (Some v) (after k ops)))) = None /\
+  (forall ob', get_obj c (st_objs (fst (do_disconnect k c now rc (Some v) (after k ops)))) = Some ob' -> o_sei ob' = 0) /\
+  In (OPkt c (PDisconnect 130)) (snd (do_disconnect k c now rc (Some v) (after k ops))).
+Proof. intros k ops c now rc v ob R V S P. apply (disconnect_cannot_raise k _ c now rc v ob (inv_reachable k ops) R V S P). Qed.
+
 (* the monitor rejects what the broker did before the two repairs, and accepts the repaired model *)
 Theorem C15_prefix_expiry_refuted :
   map v_tag (mon15 caps10 (map obs_of (trace_prefix caps10 init hist_c15_1)))
@@ -52,5 +100,9 @@ Proof. vm_compute. repeat split. Qed.
 
 Print Assumptions C15_nothing_left_partial.
 Print Assumptions C15_index_belongs_to_sessions.
+Print Assumptions C15_when.
+Print Assumptions C15_never_while_connected.
+Print Assumptions C15_interval_capped.
+Print Assumptions C15_disconnect_cannot_raise.
 Print Assumptions C15_prefix_expiry_refuted.
 Print Assumptions C15_prefix_disconnect_cap_refuted.
